@@ -15,10 +15,11 @@ CONSTANTS
   PrefRest = "t1"
   Stamps = {999}
   MaxNow = 2
-  Shapes = {"ok", "short"}
+  Shapes = {"ok", "okq", "short"}
   LevelKinds = {"node", "module", "param"}
   Kinds = {"updateEvent", "updateItem"}
   Behs = {"ok", "oneshot", "raise"}
+  ErrBehs = {"ok", "raise"}
   InitDescs <- GenInit
   Descs <- GenInit
   GIdents <- GIdentsC
